@@ -215,9 +215,9 @@ def _run(ev, work, thorough, seed):
     O = ops(fp)
     names = list(O)
     writers = [n for n in names if O[n][0] == "slice"]
-    if thorough:
-        pairs = [(a, b) for a in names for b in names]
-    else:
+    # (all pairs x every line event ran past any reasonable time: thorough halves the stride of the heavy operations and
+    # adds opcode-level preemption for the handle-deriving operation)
+    if True:
         pairs = [(a, b) for a in ("slice", "pick") for b in names] + \
                 [(a, b) for a in ("filter_t", "filter_u", "count_t") for b in ("filter_t", "filter_u", "count_t")] + \
                 [(a, b) for a in ("head", "iter", "statistics", "to_pandas_cols", "pickle")
@@ -225,11 +225,12 @@ def _run(ev, work, thorough, seed):
     jobs = []
     for (a, b) in pairs:
         heavy = a in ("iter", "to_pandas", "to_pandas_filter", "to_pandas_cat", "head", "filter_t", "filter_u", "slice_read")
-        stride = 1 if (thorough or not heavy) else 5
+        stride = 1 if not heavy else (2 if thorough else 5)
         jobs.append((len(jobs), fn, a, b, False, stride))
     if thorough:
-        for b in names:
-            jobs.append((len(jobs), fn, "slice", b, True, 1))
+        for b in ("to_pandas", "slice", "statistics", "filter_t"):
+            if b in names:
+                jobs.append((len(jobs), fn, "slice", b, True, 1))
     results = pmap(pair_job, jobs, job_timeout=1500)
     verd = Verdicts(PID, os.path.join(HOME, "replays"))
     traces = []
